@@ -12,6 +12,7 @@
 EXTENDS Naturals, Sequences, FiniteSets, TLC, Json, IOUtils
 H == INSTANCE H_EventEq
 G == INSTANCE EventGrammar
+HD == INSTANCE H_DocBoundaries
 
 Traces == JsonDeserialize(IOEnv.TRACE_FILE)
 VARIABLE tid
@@ -28,6 +29,8 @@ Judge(t) ==
       ELSE IF t.outcome = "ParseError" THEN [ok |-> FALSE, why |-> "emitted text does not parse", at |-> 0]
       ELSE LET r == H!FirstBad(t.ein, t.eout, 1)
            IN  IF r.at = 0 THEN [ok |-> TRUE, why |-> "-", at |-> 0]
+               ELSE IF HD!LostEmptyDocs(HD!Docs(t.ein), HD!Docs(t.eout), 0)
+               THEN [ok |-> FALSE, why |-> r.why \o ":empty-root-document-lost", at |-> r.at]
                ELSE IF r.why = "scalar value"
                THEN [ok |-> FALSE, why |-> "value:" \o H!DiffClass(H!Norm(t.ein[r.at]).v, H!Norm(t.eout[r.at]).v), at |-> r.at]
                ELSE [ok |-> FALSE, why |-> r.why, at |-> r.at]
